@@ -3,6 +3,7 @@ package checks
 import (
 	"encoding/json"
 	"fmt"
+	"mime"
 	"net/http"
 	"strings"
 	"time"
@@ -458,7 +459,18 @@ func c13Mutants(seeds []c13Seed, pairs bool) []c13Mutant {
 				if reads && invalid(v) {
 					tag = tagName
 				}
-				add(s, "M6-"+name, tag, q)
+				op := "M6-" + name
+				if name == "Content-Type" {
+					switch {
+					case v == "\x00missing":
+						op += "-missing"
+					case strings.Contains(v, "/") && strings.Contains(v, ";") && tag != "":
+						op += "-malformed-parameter"
+					default:
+						op += "-other"
+					}
+				}
+				add(s, op, tag, q)
 			}
 		}
 		hdrMut("Depth", []string{"0", "1", "infinity", "Infinity", "2", "-1", "0, 1"}, func(v string) bool {
@@ -467,8 +479,19 @@ func c13Mutants(seeds []c13Seed, pairs bool) []c13Mutant {
 		hdrMut("Overwrite", []string{"T", "F", "t", "X", "TT"}, func(v string) bool { return v != "T" && v != "F" && v != "t" }, "invalid-overwrite", s.Overwrite)
 		hdrMut("Destination", []string{"\x00missing", "%zz", "http://[::1", "/d/ok"}, func(v string) bool { return v != "/d/ok" }, "invalid-destination", s.Dest)
 		ctReads := (s.BodyKind == "ical" || s.BodyKind == "vcard") || s.NeedsXML
-		hdrMut("Content-Type", []string{"\x00missing", "text/plain", ";;", "text/xml; charset=x", "application/xml;"}, func(v string) bool {
-			return v == "\x00missing" || v == "text/plain" || v == ";;"
+		ctVals := []string{"\x00missing", "text/plain", ";;", "text/xml; charset=x", "application/xml;"}
+		if base, ok := s.Req.Header["Content-Type"]; ok {
+			// the right media type with malformed parameters
+			mt := strings.TrimSpace(strings.SplitN(base, ";", 2)[0])
+			ctVals = append(ctVals, mt+"; charset", mt+"; =utf-8", mt+`; a="b`, mt+";;; x=", mt+"; charset=utf-8")
+		}
+		hdrMut("Content-Type", ctVals, func(v string) bool {
+			if v == "\x00missing" || v == "text/plain" {
+				return true
+			}
+			// the standard library's RFC 2045/7231 media-type parser is the independent judge
+			_, _, err := mime.ParseMediaType(v)
+			return err != nil
 		}, "invalid-content-type", ctReads)
 		// pairs: one header operator x one body operator (thorough)
 		if pairs && s.BodyKind == "xml" && s.Depth {
